@@ -97,6 +97,12 @@ def interpret(prog):
         if len(set(map(repr, args))) < len(args):
             flags['shared'] = True
         ps = [ev(a) for a in args]
+        if all(poly.is_const(p) for p in ps):
+            # every operand has a constant value: the library may hold plain
+            # numbers here (x*0 folds to 0.0), and arithmetic on them is
+            # plain Python (e.g. -1 / -3 is not float32 exact): not decided
+            # by the property
+            raise IllFormed('all operands are constant-valued')
         if op in ('add', 'sub') and any(
                 is_val(a) and prog['stmts'][int(a[1:])][0] in
                 ('add', 'mul', 'neg', 'sum3', 'madd', 'sub') for a in args):
